@@ -202,7 +202,7 @@ def _map(f, conc):
 def _csqrt(v):
     c = core.ctx()
     if c is not None and c.extra.get('concrete_sqrt'):
-        return real_math.sqrt(v)
+        return real_math.sqrt(v) if v >= 0 else builtins.float('nan')
     if isinstance(v, builtins.int) or (isinstance(v, builtins.float) and v == builtins.int(v) and v >= 0):
         r = real_math.isqrt(builtins.int(v))
         if r * r == v:
@@ -211,6 +211,8 @@ def _csqrt(v):
         return core.sym_sqrt(lift(v))
     if isinstance(v, builtins.float) and v >= 0:
         return core.sym_sqrt(lift(v))
+    if v < 0:
+        return builtins.float('nan')     # numpy semantics (RuntimeWarning), e.g. in dependency dry-runs on dummy data
     return real_math.sqrt(v)
 
 
